@@ -119,6 +119,92 @@ theorem handleHDel_nf (c : Ctx) (cmd : List Bytes) : (handleHDel c cmd).NoFlushA
 theorem handleHRandField_nf (c : Ctx) (cmd : List Bytes) : (handleHRandField c cmd).NoFlushAll := by unfold handleHRandField; nf
 theorem handleHIncrBy_nf (c : Ctx) (cmd : List Bytes) : (handleHIncrBy c cmd).NoFlushAll := by unfold handleHIncrBy; nf
 
+theorem withSet_nf (cmd : List Bytes) (a : Bool) (r : Res) (m : Bytes → Bytes) (k : Bytes → List Bytes → Prog Res)
+    (h : ∀ x y, (k x y).NoFlushAll) : (withSet cmd a r m k).NoFlushAll := by
+  unfold withSet; nf; exact h _ _
+theorem handleSAdd_nf (c : Ctx) (cmd : List Bytes) : (handleSAdd c cmd).NoFlushAll := by unfold handleSAdd; nf
+theorem handleSCard_nf (c : Ctx) (cmd : List Bytes) : (handleSCard c cmd).NoFlushAll := by
+  unfold handleSCard; apply withSet_nf; intros; nf
+theorem handleSIsMember_nf (c : Ctx) (cmd : List Bytes) : (handleSIsMember c cmd).NoFlushAll := by
+  unfold handleSIsMember; apply withSet_nf; intros; nf
+theorem handleSMembers_nf (c : Ctx) (cmd : List Bytes) : (handleSMembers c cmd).NoFlushAll := by
+  unfold handleSMembers; apply withSet_nf; intros; nf
+theorem handleSMIsMember_nf (c : Ctx) (cmd : List Bytes) : (handleSMIsMember c cmd).NoFlushAll := by
+  unfold handleSMIsMember; apply withSet_nf; intros; nf
+theorem handleSRem_nf (c : Ctx) (cmd : List Bytes) : (handleSRem c cmd).NoFlushAll := by
+  unfold handleSRem; apply withSet_nf; intros; nf
+theorem handleSRandMember_nf (c : Ctx) (cmd : List Bytes) : (handleSRandMember c cmd).NoFlushAll := by unfold handleSRandMember; nf
+theorem handleSPop_nf (c : Ctx) (cmd : List Bytes) : (handleSPop c cmd).NoFlushAll := by unfold handleSPop; nf
+theorem handleSMove_nf (c : Ctx) (cmd : List Bytes) : (handleSMove c cmd).NoFlushAll := by unfold handleSMove; nf
+theorem collectSets_nf (ks : List Bytes) : ∀ (k : List (List Bytes) → Prog Res), (∀ x, (k x).NoFlushAll) →
+    (collectSets ks k).NoFlushAll := by
+  induction ks with
+  | nil => intro k h; exact h _
+  | cons x r ih =>
+    intro k h
+    unfold collectSets
+    refine nf_call _ _ (by simp) ?_
+    intro vs
+    apply ih
+    intro acc
+    split
+    · exact h _
+    · exact h _
+theorem interLoop_nf (l : List (Bytes × Bool)) (r : Res) : ∀ (k : List (Nat × List Bytes) → Prog Res),
+    (∀ x, (k x).NoFlushAll) → (interLoop l r k).NoFlushAll := by
+  induction l with
+  | nil => intro k h; exact h _
+  | cons x rest ih =>
+    intro k h
+    obtain ⟨key, e⟩ := x
+    unfold interLoop
+    split
+    · trivial
+    · refine nf_call _ _ (by simp) ?_
+      intro vs
+      split
+      · trivial
+      · apply ih; intro acc; exact h _
+theorem writeBack_nf (l : List (Bytes × List Bytes × List Bytes)) (k : Prog Res) (h : k.NoFlushAll) :
+    (writeBack l k).NoFlushAll := by
+  induction l with
+  | nil => exact h
+  | cons x r ih =>
+    obtain ⟨a, o, n⟩ := x
+    unfold writeBack
+    split
+    · exact ih
+    · exact nf_call _ _ (by simp) (fun _ => ih)
+
+/-- `nf` extended with the set-module combinators -/
+macro "nf2" : tactic => `(tactic| (
+  repeat' (first
+    | trivial
+    | (apply plusV_nf; intro _)
+    | (apply setOrErr_nf)
+    | (apply adaptOr_nf; intro _)
+    | (apply delEach_nf)
+    | (exact ofOutcome_nf _)
+    | (apply collectSets_nf; intro _)
+    | (apply interLoop_nf; intro _)
+    | (apply writeBack_nf)
+    | (refine nf_call _ _ (by simp) ?_; intro _)
+    | split
+    | (dsimp only))))
+
+theorem handleSDiff_nf (st : Bool) (c : Ctx) (cmd : List Bytes) : (handleSDiff st c cmd).NoFlushAll := by
+  unfold handleSDiff; nf2
+theorem sinterStore_nf (a d : Bytes) (s : List (Nat × List Bytes)) (r : List Bytes) : (sinterStore a d s r).NoFlushAll := by
+  unfold sinterStore; nf2
+theorem sinterTail_nf (m : Nat) (l : Int) (a d : Bytes) (s : List (Nat × List Bytes)) : (sinterTail m l a d s).NoFlushAll := by
+  unfold sinterTail; nf2 <;> exact sinterStore_nf _ _ _ _
+theorem handleSInter_nf (m : Nat) (c : Ctx) (cmd : List Bytes) : (handleSInter m c cmd).NoFlushAll := by
+  unfold handleSInter; nf2 <;> exact sinterTail_nf _ _ _ _ _
+theorem sunionTail_nf (st : Bool) (d : Bytes) (o : List (Bytes × Nat × List Bytes)) : (sunionTail st d o).NoFlushAll := by
+  unfold sunionTail; nf2
+theorem handleSUnion_nf (st : Bool) (c : Ctx) (cmd : List Bytes) : (handleSUnion st c cmd).NoFlushAll := by
+  unfold handleSUnion; nf2 <;> exact sunionTail_nf _ _ _
+
 theorem handleFlush_nf (c : Ctx) (cmd : List Bytes) (hn : ¬ eqFold (cmd.headD []) (b "flushall") = true) :
     (handleFlush c cmd).NoFlushAll := by
   unfold handleFlush
@@ -193,7 +279,13 @@ theorem table_noFlushAll : ∀ e ∈ handlerTable, ∀ (c : Ctx) (cmd : List Byt
     fun c cmd _ => handleHStrLen_nf c cmd, fun c cmd _ => handleHVals_nf c cmd,
     fun c cmd _ => handleHRandField_nf c cmd, fun c cmd _ => handleHLen_nf c cmd,
     fun c cmd _ => handleHKeys_nf c cmd, fun c cmd _ => handleHIncrBy_nf c cmd, fun c cmd _ => handleHIncrBy_nf c cmd,
-    fun c cmd _ => handleHGetAll_nf c cmd, fun c cmd _ => handleHExists_nf c cmd, fun c cmd _ => handleHDel_nf c cmd⟩
+    fun c cmd _ => handleHGetAll_nf c cmd, fun c cmd _ => handleHExists_nf c cmd, fun c cmd _ => handleHDel_nf c cmd,
+    fun c cmd _ => handleSAdd_nf c cmd, fun c cmd _ => handleSCard_nf c cmd,
+    fun c cmd _ => handleSDiff_nf _ c cmd, fun c cmd _ => handleSDiff_nf _ c cmd,
+    fun c cmd _ => handleSInter_nf _ c cmd, fun c cmd _ => handleSInter_nf _ c cmd, fun c cmd _ => handleSInter_nf _ c cmd,
+    fun c cmd _ => handleSIsMember_nf c cmd, fun c cmd _ => handleSMembers_nf c cmd, fun c cmd _ => handleSMIsMember_nf c cmd,
+    fun c cmd _ => handleSMove_nf c cmd, fun c cmd _ => handleSPop_nf c cmd, fun c cmd _ => handleSRandMember_nf c cmd,
+    fun c cmd _ => handleSRem_nf c cmd, fun c cmd _ => handleSUnion_nf _ c cmd, fun c cmd _ => handleSUnion_nf _ c cmd⟩
 
 theorem progOf_noFlushAll (c : Ctx) (cmd : List Bytes) (p : Prog Res)
     (h : progOf c cmd = some p) (hn : ¬ eqFold (cmd.headD []) (b "flushall") = true) :
